@@ -61,6 +61,14 @@ IsConsecutiveCoarsening(part, o) ==
 
 FullyRobust(C, part) == \A k \in 1..(Len(part) - 1) : ~MustFuse(C, part, k)
 
+\* the best score over the rankings that respect an ordered partition P: each group solved on its own (subset DP
+\* on the restricted table) plus, across groups, the cost of "earlier group before later group".
+\* Theorem PartOptThm (MC_Partition): some optimal consensus respects P  iff  PartOpt(C, P) = the optimum.
+PartOpt(C, P) == LET inside(g) == OptDP([p \in P[g] \X P[g] |-> C[p]], P[g])
+                     across(gh) == BeforeCost(C, P[gh[1]], P[gh[2]])
+                 IN MapThenSumSet(inside, DOMAIN P)
+                    + MapThenSumSet(across, {gh \in (DOMAIN P) \X (DOMAIN P) : gh[1] < gh[2]})
+
 \* groups that can be all tied at minimal cost (solved trivially by ParCons)
 CanBeAllTied(C, S) == \A x, y \in S : x < y => C[<<x, y>>][3] <= Min2(C[<<x, y>>][1], C[<<x, y>>][2])
 =============================================================================
